@@ -227,6 +227,24 @@ func checkC11(c *C11Case, st *VStats) *VFailure {
 	inv := func(step string) *VFailure {
 		for i := range vars {
 			if named {
+				// sets with named ports: the numeric points still follow the model, and a set that covers every port
+				// number of every protocol (none excluded by name) is the full set
+				for _, x := range c11Pool {
+					for pi, p := range c11Prots {
+						if vars[i].Contains(strconv.Itoa(x), string(p)) != models[i].get(pi, x) {
+							return vfail("%s: v%d Contains(%d,%s)=%v, model=%v (set %q)", step, i, x, p, !models[i].get(pi, x), models[i].get(pi, x), vars[i].String())
+						}
+					}
+				}
+				excluded := false
+				for _, ps := range vars[i].AllowedProtocols {
+					if len(ps.ExcludedNamedPorts) > 0 {
+						excluded = true
+					}
+				}
+				if models[i].full() && !excluded && (!vars[i].IsAllConnections() || vars[i].String() != "All Connections") {
+					return vfail("%s: v%d covers every port of every protocol (plus named ports) but is not recognised as the full set: IsAllConnections=%v String=%q", step, i, vars[i].IsAllConnections(), vars[i].String())
+				}
 				continue
 			}
 			d, err := c11Denote(vars[i])
